@@ -221,3 +221,137 @@ def unregister():
 
 
 REPO = Path(os.environ.get("VERIF_REPO", "/repo"))
+
+
+# ------------------------------------------------------------------------------------------------ C20: several clients, tracking
+
+class PubSubConn:
+    """the dedicated connection a client's listener reads announcements from.  `read` blocks (no timer, no spinning) until the
+    harness wakes it; a broken connection raises ConnectionError from `read`."""
+
+    def __init__(self, port: "ClientPort"):
+        import asyncio
+
+        self.port = port
+        self.replies: list = []
+        self.wakeup = asyncio.Event()
+        self.idle = False
+        self.broken = False
+        self.subscribed = False
+
+    async def send(self, args):
+        if self.broken:
+            raise redis.ConnectionError("stub: invalidation connection lost")
+        words = [a.decode() if isinstance(a, bytes) else str(a) for a in args]
+        cmd = " ".join(words[:2]).upper()
+        if cmd == "CLIENT ID":
+            self.replies.append(1000 + self.port.idx)
+        elif cmd == "CLIENT TRACKING":
+            up = [w.upper() for w in words]
+            if up[2:5] != ["ON", "REDIRECT", str(1000 + self.port.idx)] or "BCAST" not in up or "PREFIX" not in up:
+                raise HarnessError(f"unexpected tracking request: {words}")
+            self.port.prefix = words[up.index("PREFIX") + 1]
+            if self.port.hub.drv.ask(f"track {self.port.idx}") != "ok":
+                raise HarnessError("driver refused track")
+            self.replies.append(b"OK")
+        elif words[0].upper() == "SUBSCRIBE":
+            self.subscribed = True
+            self.replies.append([b"subscribe", words[1].encode(), 1])
+        else:
+            raise HarnessError(f"unexpected command on the invalidation connection: {words}")
+
+    def _pop(self):
+        if not self.subscribed:
+            return None
+        ans = self.port.hub.drv.ask(f"pop {self.port.idx}")
+        if ans == "F":
+            return [b"message", b"__redis__:invalidate", None]
+        if ans.startswith("K"):
+            return [b"message", b"__redis__:invalidate", [bytes.fromhex(x) for x in ans[1:].split(",") if x]]
+        if ans != "none":
+            raise HarnessError(f"driver answered {ans!r} to pop")
+        return None
+
+    async def read(self, block=True, timeout=0):
+        if self.replies:
+            return self.replies.pop(0)
+        if self.broken:
+            raise redis.ConnectionError("stub: invalidation connection lost")
+        msg = self._pop()
+        if msg is not None:
+            return msg
+        # nothing to read: park until the harness wakes this listener (stands for the 0.1 s poll timeout)
+        self.idle = True
+        self.wakeup.clear()
+        await self.wakeup.wait()
+        self.idle = False
+        if self.broken:
+            raise redis.ConnectionError("stub: invalidation connection lost")
+        return self._pop()
+
+    async def close(self):
+        self.broken = True
+
+
+class ClientPort:
+    """what one client's connection pool talks to: the shared Lean server, with this client's identity"""
+
+    def __init__(self, hub: "Hub", idx: int):
+        import asyncio
+
+        self.hub = hub
+        self.idx = idx
+        self.prefix = None
+        self.conn: PubSubConn | None = None
+        self.allow_connect = asyncio.Event()
+        self.allow_connect.set()
+
+    async def execute(self, client, args):
+        return await self.hub.execute(self.idx, args)
+
+    async def execute_multi(self, client, cmds, transaction=True):
+        return [await self.hub.execute(self.idx, a, multi=True) for a in cmds]
+
+    async def pubsub_connect(self, pubsub):
+        await self.allow_connect.wait()
+        self.conn = PubSubConn(self)
+        return self.conn
+
+
+class Hub:
+    """one Lean server (lean/Drivers/C20.lean) shared by several clients"""
+
+    def __init__(self, drv: PersistentDriver, n: int):
+        self.drv = drv
+        self.n = n
+        self.now_ms = 0
+        self.calls = 0
+        if drv.ask(f"reset {n}") != "ok":
+            raise HarnessError("driver refused reset")
+        self.ports = [ClientPort(self, i) for i in range(n)]
+
+    def sync_time(self):
+        ms = round((vtime.CLOCK.t - vtime.BASE) * 1000)
+        if ms > self.now_ms:
+            if self.drv.ask(f"srvadv {ms - self.now_ms}") != "ok":
+                raise HarnessError("srvadv refused")
+            self.now_ms = ms
+
+    async def execute(self, idx, args, multi=False):
+        toks = wire_tokens(args)
+        self.calls += 1
+        if "~" in toks:
+            raise redis.DataError("Invalid input of type: 'NoneType'")
+        self.sync_time()
+        ans = self.drv.ask(f"srv {idx} " + " ".join(toks))
+        if ans in ("bad-op", "unmodelled"):
+            raise HarnessError(f"the model server cannot answer {ans}: {' '.join(toks)}")
+        r = parse_reply(ans)
+        if isinstance(r, Exception):
+            if multi:
+                return r
+            raise r
+        return r
+
+    def qlens(self) -> list[int]:
+        return [int(x) for x in self.drv.ask("qlen").split("=")[1].split(",")]
